@@ -298,6 +298,23 @@ func (x *Exec) invoke(fr *Frame, st *State, in ssa.Instruction, c *ssa.CallCommo
 		x.enc.trusted["assumed: "+full+" is a pure observer of its receiver"] = true
 		res := x.pureMethod(st, m, recv, args)
 		x.linkImplementers(fr, st, recvT, m, recv, res)
+		// assumed facts about the pure observer (prelude ensures, over self / r0 / a0..)
+		if len(ct.Ensures) > 0 {
+			env := &SpecEnv{x: x, st: st.view(), vars: map[string]Val{}, pkg: x.pkgOfContract(ct, nil, nil)}
+			rv := recv
+			rv.Typ = recvT
+			env.vars["self"] = rv
+			env.vars["r0"] = res
+			for i, a := range args {
+				env.vars[fmt.Sprintf("a%d", i)] = a
+			}
+			env.old = env
+			for _, cl := range ct.Ensures {
+				if t, err := env.EvalAssume(cl.Node); err == nil {
+					st.assume(t)
+				}
+			}
+		}
 		k(st, []Val{res})
 		return
 	}
@@ -354,6 +371,86 @@ func (x *Exec) pureMethod(st *State, m *types.Func, recv Val, args []Val) Val {
 	}
 	return v
 }
+
+// pureFuncResult: a module function whose contract carries the flag `pure` (and whose body passed
+// the purity check, see checkPureBody) is a mathematical function of its scalar arguments: the
+// code-side call yields the same application term the specification side uses.
+func (x *Exec) pureFuncResult(st *State, fn *ssa.Function, ct *Contract, args []Val, rts []types.Type) (Val, bool) {
+	if fn == nil || !ct.Flags["pure"] || len(rts) != 1 || fn.Signature.Recv() != nil {
+		return Val{}, false
+	}
+	sorts := x.enc.sortsOf(rts[0])
+	if len(sorts) != 1 {
+		return Val{}, false
+	}
+	var ts []Term
+	for _, a := range args {
+		if a.K != VTerm {
+			return Val{}, false
+		}
+		ts = append(ts, a.T)
+	}
+	o := fn
+	if fn.Origin() != nil {
+		o = fn.Origin()
+	}
+	tf, ok := o.Object().(*types.Func)
+	if !ok {
+		return Val{}, false
+	}
+	v := Val{K: VTerm, T: x.enc.UF("fn."+tf.FullName(), sorts[0], ts...), Typ: rts[0]}
+	st.assumeAll(x.enc.typeInv(rts[0], v))
+	return v, true
+}
+
+// checkPureBody: the syntactic purity check behind the flag `pure` on a module function: no
+// stores, no map updates, no loads from the heap, calls only to functions and methods that are
+// themselves pure (contract flag or assumed pure observers) or to side-effect-free stubs.
+func (x *Exec) checkPureBody(fn *ssa.Function) string {
+	for _, b := range fn.Blocks {
+		for _, in := range b.Instrs {
+			switch t := in.(type) {
+			case *ssa.Store, *ssa.MapUpdate, *ssa.Go, *ssa.Defer, *ssa.Send, *ssa.Select, *ssa.MakeClosure, *ssa.MakeMap, *ssa.MakeSlice, *ssa.Alloc, *ssa.Lookup, *ssa.Range:
+				return fmt.Sprintf("%T", in)
+			case *ssa.UnOp:
+				if t.Op == token.MUL || t.Op == token.ARROW {
+					return "load " + t.X.Name()
+				}
+			case *ssa.Call:
+				c := t.Common()
+				if c.IsInvoke() {
+					if ct := x.ifaceContract(c.Value.Type(), c.Method.Name()); ct == nil || !ct.Flags["pure"] {
+						return "invoke " + c.Method.Name()
+					}
+					continue
+				}
+				switch v := c.Value.(type) {
+				case *ssa.Builtin:
+					if v.Name() != "len" && v.Name() != "cap" && v.Name() != "min" && v.Name() != "max" {
+						return "builtin " + v.Name()
+					}
+				case *ssa.Function:
+					o := v
+					if v.Origin() != nil {
+						o = v.Origin()
+					}
+					if ct, ok := x.specs.Funcs[fullKey(o)]; ok && ct.Flags["pure"] {
+						continue
+					}
+					if pureStdFuncs[o.String()] {
+						continue
+					}
+					return "call " + o.String()
+				default:
+					return "dynamic call"
+				}
+			}
+		}
+	}
+	return ""
+}
+
+var pureStdFuncs = map[string]bool{"strings.HasPrefix": true, "strings.HasSuffix": true, "strings.IndexByte": true, "strings.Contains": true, "strings.EqualFold": true}
 
 // pureApply is the specification-side application of a function or method.
 func (x *Exec) pureApply(st *State, fn *types.Func, recv *Val, args []Val) Val {
@@ -476,7 +573,12 @@ func (x *Exec) specEnv(fr *Frame, st *State, oldHeap map[string]Term) *SpecEnv {
 	if oh == nil {
 		oh = map[string]Term{}
 	}
-	o := &SpecEnv{x: x, st: st.viewWithHeap(oh), vars: env.vars, pkg: env.pkg, lets: env.lets, events: st.events}
+	// old(): parameters keep their entry values (loop invariants rebind reassigned parameters in env.vars only)
+	ov := make(map[string]Val, len(env.vars))
+	for k2, v := range env.vars {
+		ov[k2] = v
+	}
+	o := &SpecEnv{x: x, st: st.viewWithHeap(oh), vars: ov, pkg: env.pkg, lets: env.lets, events: st.events}
 	env.old = o
 	return env
 }
@@ -619,6 +721,8 @@ func (x *Exec) callByContract(fr *Frame, st *State, in ssa.Instruction, fn *ssa.
 	if ct.Flags["pure"] && fn == nil && len(rts) == 1 {
 		c := in.(ssa.CallInstruction).Common()
 		res = []Val{x.pureMethod(st, c.Method, *recv, args)}
+	} else if v, ok := x.pureFuncResult(st, fn, ct, args, rts); ok {
+		res = []Val{v}
 	} else {
 		for i, rt := range rts {
 			v, inv := x.enc.freshVal(rt, fmt.Sprintf("ret.%s.%d", ct.Key, i))
@@ -707,7 +811,8 @@ func (x *Exec) havocLoc(st *State, env *SpecEnv, m string) {
 			names, as := st.elemArrs(u.Elem())
 			for k := range names {
 				arr := st.hget(names[k], as[k])
-				st.hset(names[k], Store(arr, v.Parts[0].T, x.enc.Fresh("havoc.elems", elemSort(as[k]))))
+				// a nil slice has no elements to modify
+				st.hset(names[k], Ite(Eq(v.Parts[0].T, TNull), arr, Store(arr, v.Parts[0].T, x.enc.Fresh("havoc.elems", elemSort(as[k])))))
 			}
 		case *types.Map:
 			// a nil map has no contents to modify
